@@ -54,6 +54,7 @@ def gen_case(rng, supervised, diagonal):
     init = gen.grid(A.T.dot(A) + np.eye(d), bits=5)
   else:
     init = init_kind
+  init_arg = init.copy() if isinstance(init, np.ndarray) else init          # what the estimator gets
   seed = int(rng.integers(1000))
   max_iter = int(rng.integers(1, 12))
   tol = float(rng.choice([1e-3, 1e-6]))
@@ -66,16 +67,16 @@ def gen_case(rng, supervised, diagonal):
     pairs = X[idx]
   ev = {'ev': 'MmcFit', 'supervised': bool(supervised), 'diagonal': bool(diagonal), 'init_kind': init_kind, 'exc': '',
         'A0': [], 'A': [], 'L': [], 'S': [], 'D': [], 'cycles': [], 'probes_ok': False, 'max_iter': max_iter}
-  kw = dict(max_iter=max_iter, max_proj=int(rng.choice([2000, 10000])), tol=tol, init=init, diagonal=diagonal,
+  kw = dict(max_iter=max_iter, max_proj=int(rng.choice([2000, 10000])), tol=tol, init=init_arg, diagonal=diagonal,
             diagonal_c=float(rng.choice([0.5, 1.0, 4.0])), random_state=seed)
   with warnings.catch_warnings():
     warnings.simplefilter('ignore')
     try:
       with FDProbe() as pr:
         if supervised:
-          est = gen.MMC_Supervised(n_constraints=n_c, **kw).fit(X, y)
+          est = gen.MMC_Supervised(n_constraints=n_c, **kw).fit(X.copy(), y.copy())
         else:
-          est = gen.MMC(**kw).fit(pairs, lab)
+          est = gen.MMC(**kw).fit(pairs.copy(), lab.copy())
       pos, neg = pairs[lab == 1], pairs[lab == -1]
       S = pos[:, 0] - pos[:, 1]
       Dv = neg[:, 0] - neg[:, 1]
